@@ -183,11 +183,11 @@ class Builtins(object):
         d = base.dotted + '.' + name
         if d == 'math.pi':
             it.ctx.flags.add('ext:math.pi')
-            it.ctx.assume(z3.And(PI > z3.RealVal('3.14159'), PI < z3.RealVal('3.1416')))
+            it.ctx.axiom(z3.And(PI > z3.RealVal('3.14159'), PI < z3.RealVal('3.1416')))
             return mk_float(PI)
         if d == 'math.e':
             it.ctx.flags.add('ext:math.e')
-            it.ctx.assume(z3.And(E > z3.RealVal('2.71828'), E < z3.RealVal('2.71829')))
+            it.ctx.axiom(z3.And(E > z3.RealVal('2.71828'), E < z3.RealVal('2.71829')))
             return mk_float(E)
         if d == 'datetime.datetime':
             return T_DATETIME
@@ -298,7 +298,7 @@ class Builtins(object):
             raise PyRaise('ValueError', ExcInst('ValueError'))
         if c == 2:
             raise PyRaise('OverflowError', ExcInst('OverflowError'))
-        it.ctx.assume(z3.And(f(st) >= 0, f(st) <= z3.RealVal(date_to_us(datetime.datetime(9999, 12, 31, 23, 59, 59, 999999)))))
+        it.ctx.axiom(z3.And(f(st) >= 0, f(st) <= z3.RealVal(date_to_us(datetime.datetime(9999, 12, 31, 23, 59, 59, 999999)))))
         return mk_date(f(st))
 
     def x_random_random(self, it, args, kwargs):
@@ -336,6 +336,64 @@ class Builtins(object):
             re_sub_f[key] = z3.Function('re_sub_%d' % len(re_sub_f), z3.StringSort(), z3.StringSort())
         it.ctx.flags.add('ext:re.sub(%r,%r)' % key)
         return mk_str(re_sub_f[key](ss.pay(STR)))
+
+    def regex_method(self, it, rx, name, args, kwargs):
+        """ compiled.match(s) for patterns anchored at both ends whose groups are top-level: the match object's groups are
+            fresh strings constrained by s = g1 g2 ... (some decomposition; exact when the decomposition is unique) """
+        from . import lexre
+        ctx = it.ctx
+        if name != 'match':
+            raise OutOfReach('regex method %s' % name)
+        s = args[0]
+        if isinstance(s, str):
+            import re
+            m = re.compile(rx.pattern, rx.flags).match(s)
+            if m is None:
+                return None
+            groups = tuple(m.groups())
+            return Obj(NamedTupleClass('Match', []), {'groups': Builtin('groups', lambda it2, a, k: groups)})
+        ss = as_sym(s)
+        kd = ctx.narrow(ss)
+        if kd != STR:
+            if kd == OBJ:
+                raise OutOfReach('regex match on host object')
+            raise PyRaise('TypeError', ExcInst('TypeError'))
+        try:
+            P = lexre.Parsed(rx.pattern, rx.flags)
+            if not P.begin or P.end is None:
+                raise lexre.Unsupported('only fully anchored patterns are modelled for match()')
+            parts = P.flat_parts()
+            lang = P.fullmatch_language()
+        except lexre.Unsupported as u:
+            raise OutOfReach('regex %r: %s' % (rx.pattern, u))
+        ctx.flags.add('ext:re (pattern %r as z3 regex)' % rx.pattern)
+        st = ss.pay(STR)
+        if not ctx.branch(z3.InRe(st, lang)):
+            return None
+        pieces = []
+        groups = {}
+        for i, (rgx, gno, optional) in enumerate(parts):
+            g = ctx.fresh(z3.StringSort(), 'grp%d' % i)
+            if optional:
+                if ctx.branch(z3.Length(g) == 0):
+                    if gno is not None:
+                        groups[gno] = None
+                    pieces.append(g)
+                    continue
+            ctx.assume(z3.InRe(g, rgx))
+            pieces.append(g)
+            if gno is not None:
+                groups[gno] = mk_str(g)
+        whole = z3.Concat(*pieces) if len(pieces) > 1 else pieces[0]
+        if P.end == '$':
+            if ctx.branch(st == whole):
+                pass
+            else:
+                ctx.assume(st == z3.Concat(whole, z3.StringVal('\n')))
+        else:
+            ctx.assume(st == whole)
+        tup = tuple(groups.get(i + 1) for i in range(P.ngroups))
+        return Obj(NamedTupleClass('Match', []), {'groups': Builtin('groups', lambda it2, a, k: tup)})
 
     def x_traceback_print_exc(self, it, args, kwargs):
         it.ctx.log.append(('stderr', 'traceback.print_exc'))
@@ -500,7 +558,7 @@ class Builtins(object):
             f = z3.Function('py_repeat_' + str(ord(fill)), z3.IntSort(), z3.StringSort())
             wt = int_term(ctx, w)
             n = z3.Length(s)
-            ctx.assume(z3.Length(f(wt - n)) == z3.If(wt - n > 0, wt - n, 0))
+            ctx.axiom(z3.Length(f(wt - n)) == z3.If(wt - n > 0, wt - n, 0))
             ctx.flags.add('ext:str.rjust')
             return mk_str(z3.If(wt > n, z3.Concat(f(wt - n), s), s))
         if name == 'startswith':
@@ -669,9 +727,9 @@ class Builtins(object):
             if k == STR:
                 s = v.pay(STR)
                 ctx.flags.add('ext:int(text)')
+                self.world.axioms.int_text(it, s)
                 if not ctx.branch(py_int_ok(s)):
                     raise PyRaise('ValueError', ExcInst('ValueError'))
-                self.world.axioms.int_text(it, s)
                 return mk_int(py_int(s))
             if k == OBJ:
                 raise OutOfReach('int of host object')
